@@ -3,7 +3,7 @@ Proofs about single tokens (C11 f, the part that is done): the scanner reads bac
 literal and a printed integer as exactly that token, whatever follows (a literal ends at its
 closing quote; an integer ends before any byte that cannot continue a number).
 -/
-import ThriftVerif.Idl.Lexer
+import ThriftVerif.Idl.LexerProofs
 import ThriftVerif.Idl.QuoteProofs
 import ThriftVerif.Idl.NumberProofs
 
@@ -16,17 +16,6 @@ def litPieceOk (q : UInt8) (p : Bytes) : Bool :=
   | [a, _] => a == 92
   | [a, _, h1, h2] => a == 92 && h1 != q && h1 != 10 && h1 != 92 && h2 != q && h2 != 10 && h2 != 92
   | _ => false
-
-theorem litScan_close (q : UInt8) (R : Bytes) : litScan q (q :: R) = .closed 1 := by
-  unfold litScan; simp
-
-theorem litScan_plain (q c : UInt8) (R : Bytes) (h1 : c ≠ q) (h2 : c ≠ 10) (h3 : c ≠ 92) :
-    litScan q (c :: R) = (litScan q R).add 1 := by
-  cases R <;> simp [litScan, h1, h2, h3]
-
-theorem litScan_esc (q e : UInt8) (R : Bytes) (hq : q ≠ 92) :
-    litScan q (92 :: e :: R) = (litScan q R).add 2 := by
-  simp [litScan, Ne.symm hq]
 
 theorem LitScan.add_add (r : LitScan) (a b : Nat) : (r.add a).add b = r.add (a + b) := by
   cases r <;> simp [LitScan.add]; omega
